@@ -13,7 +13,7 @@ import z3
 from . import dsl
 from . import specfuns as SF
 from .values import *    # noqa
-from .values import Unsupported
+from .values import Unsupported, CMD_UNIVERSE
 
 TWO32 = 2 ** 32
 
@@ -83,6 +83,31 @@ def exc_is_subclass(cls, parent):
     return False
 
 
+_QCACHE = {}
+
+
+def has_quantifier(t):
+    key = t.get_id()
+    hit = _QCACHE.get(key)
+    if hit is not None and hit[0].eq(t):
+        return hit[1]
+    stack = [t]
+    seen = set()
+    res = False
+    while stack:
+        x = stack.pop()
+        if x.get_id() in seen:
+            continue
+        seen.add(x.get_id())
+        if z3.is_quantifier(x):
+            res = True
+            break
+        if z3.is_app(x):
+            stack.extend(x.children())
+    _QCACHE[key] = (t, res)
+    return res
+
+
 def map_ite_leaves(t, fn):
     """Apply a concrete int function to every leaf of an if-then-else tree of integer literals (None if not such a tree)."""
     if z3.is_int_value(t):
@@ -130,7 +155,7 @@ class Executor(object):
         self.feas_cache = {}
         self.only_props = None
         self.current = None
-        self.fsolver_timeout = 1500
+        self.fsolver_timeout = 200
 
     # ------------------------------------------------------------------------------------------
     # path management
@@ -156,7 +181,9 @@ class Executor(object):
     def feasible(self, cond):
         s = z3.Solver()
         s.set('timeout', self.fsolver_timeout)
-        fs = self.pc + [cond]
+        s.set('rlimit', 3000000)
+        # quantified facts are left out: fewer constraints can only make more paths look feasible (sound)
+        fs = [f for f in self.pc if not has_quantifier(f)] + [cond]
         for f in fs:
             s.add(f)
         for f in SF.axioms_for(fs, rounds=1):
@@ -260,7 +287,7 @@ class Executor(object):
         if typ == 'none':
             return NONE
         if typ == 'cmdset':
-            return VCmdSet(z3.Const(n, z3.ArraySort(Bytes, BoolS)))
+            return VCmdSet({c: z3.Bool('%s[%s]' % (n, c.decode())) for c in CMD_UNIVERSE})
         if typ.startswith('opt['):
             inner = self.fresh(typ[4:-1], name)
             if isinstance(inner, (VObj,)):
@@ -342,7 +369,7 @@ class Executor(object):
         if isinstance(v, VTuple):
             return VTuple([self.refresh_like(x, name) for x in v.items])
         if isinstance(v, VCmdSet):
-            return VCmdSet(z3.Const(n, z3.ArraySort(Bytes, BoolS)))
+            return VCmdSet({c: z3.Bool('%s[%s]' % (n, c.decode())) for c in CMD_UNIVERSE})
         if isinstance(v, VSeq):
             length = z3.Int(n + '.len')
             self.assume(length >= 0)
@@ -462,6 +489,14 @@ class Executor(object):
             self.env, self.mode = saved_env, saved_mode
         return truth(v)
 
+    def eval_clause_value(self, text, scope):
+        saved_env, saved_mode = self.env, self.mode
+        self.env, self.mode = scope, 'spec'
+        try:
+            return self.eval(ast.parse(text.strip(), mode='eval').body)
+        finally:
+            self.env, self.mode = saved_env, saved_mode
+
     def props_of(self, clause, contract):
         return clause.props if clause.props is not None else set(contract.props)
 
@@ -569,6 +604,10 @@ class Executor(object):
         scope = self.spec_scope(self.entry_params, result, None)
         if contract.returns is not None:
             self.check_result_type(contract, result)
+        for target, expr in contract.ghost_exit:
+            # ghost statement at the normal exit (history variables): G.<field> := expr
+            v = self.eval_clause_value(expr, scope)
+            self.G.fields[target.split('.', 1)[1]] = v
         for c in contract.defines:
             self.assume(self.eval_clause(c, scope))
         self.cur_node = self.fn_node
@@ -665,7 +704,17 @@ class Executor(object):
         self.eval(st.value)
 
     def st_Return(self, st):
-        raise ReturnSig(self.eval(st.value) if st.value is not None else NONE)
+        v = self.eval(st.value) if st.value is not None else NONE
+        if self.contract.at_return and getattr(self, 'inline_depth', 0) == 0:
+            rets = [n for n in ast.walk(self.fn_node) if isinstance(n, ast.Return)]
+            rets.sort(key=lambda n: (n.lineno, n.col_offset))
+            k = [i for i, n in enumerate(rets) if n is st]
+            if k and k[0] in self.contract.at_return:
+                scope = self.inv_scope(None, None)
+                scope['result'] = v
+                for c in self.contract.at_return[k[0]]:
+                    self.oblige('return%d/%s' % (k[0], c.label), self.eval_clause(c, scope), self.props_of(c, self.contract), 'at-return', expr=c.expr)
+        raise ReturnSig(v)
 
     def st_Break(self, st):
         raise BreakSig()
@@ -922,6 +971,10 @@ class Executor(object):
 
     def st_For(self, st):
         it = self.eval_iter(st.iter)
+        if isinstance(it, VOpt):
+            it = self.nonnull(it, 'iteration')
+        if isinstance(it, VNone):
+            raise RaiseSig(VExc('TypeError'))
         if isinstance(it, (VList, VTuple)):
             # literal of known length: unrolled (complete)
             for x in it.items:
@@ -1409,8 +1462,8 @@ class Executor(object):
                 n, inner = as_opt(x)
                 if inner is None:
                     return z3.BoolVal(False)
-                return z3.And(z3.Not(n), z3.Select(coll.arr, inner.term))
-            return z3.Select(coll.arr, x.term)
+                return z3.And(z3.Not(n), coll.member(inner.term))
+            return coll.member(x.term)
         r = self.world.contains(self, coll, x)
         if r is NotImplemented:
             raise Unsupported('`in` on %r' % (coll,))
